@@ -5,6 +5,7 @@ import CfbVerif.Props.C15
 import CfbVerif.Phys.ApiInv
 import CfbVerif.Props.C01
 import CfbVerif.Phys.NoShare
+import CfbVerif.Phys.NoShareMini
 /-!
 # C03 — every produced image is a well-formed MS-CFB file by an independent checker
 
@@ -35,6 +36,10 @@ Proved here are the allocator facts behind "at most one chain" and "marked as su
   directory, the MiniFAT, the mini stream and of every stream of at least 4096 bytes are distinct,
   in use and pointed at by nothing; `C03_chains_disjoint`: hence the chains that start there are
   pairwise disjoint and never enter free space — "every sector belongs to at most one chain".
+  `C03_no_shared_mini_sector` / `C03_mini_chains_disjoint` (`Phys/NoShareMini.lean`): the same for
+  the MiniFAT and the first mini sectors of all streams below 4096 bytes.  (The MiniFAT can shrink, so
+  its range hypothesis is asked of every state between operations, `MiniBounded`; within an
+  operation releases come before allocations.)
   What is *not* proved is the step from the API to that machine: that the lengths `physOf` hands to
   the stream operations are the directory's stream lengths (lock-stepped, and judged by
   `Spec.check` on every image of the campaign);
@@ -168,6 +173,23 @@ theorem C03_handle_call_keeps (slot : Nat) (log : List StoreOp) {p p' : P} {L : 
     (h : applyLogPhys p slot (L slot) log = .ok p') (j : JJ p L) (hb : p'.fat.size ≤ MAXREG + 1) :
     JJ p' (upd L slot (lenAfter (L slot) log)) := jj_applyLogPhys slot log h j hb
 
+/-- **no mini sector is shared**, for every history of the stream-level operations -/
+theorem C03_no_shared_mini_sector (v4 : Bool) (ops : List GOp) :
+    MiniBounded { p := Phys.create v4, L := fun _ => 0 } ops →
+    let g := grun { p := Phys.create v4, L := fun _ => 0 } ops
+    NSH g.p.miniFat (mregs g.p.starts g.L) :=
+  fun hb => (noShareMini_reachable v4 ops hb).ns
+
+/-- **mini chains are pairwise disjoint and stay out of free mini sectors** -/
+theorem C03_mini_chains_disjoint (v4 : Bool) (ops : List GOp)
+    (hb : MiniBounded { p := Phys.create v4, L := fun _ => 0 } ops) :
+    let g := grun { p := Phys.create v4, L := fun _ => 0 } ops
+    ∀ h1 ∈ mregs g.p.starts g.L, ∀ h2 ∈ mregs g.p.starts g.L, ∀ x,
+      Reach g.p.miniFat h1 x → (Reach g.p.miniFat h2 x → h1 = h2) ∧ (∃ w, g.p.miniFat[x]? = some w ∧ w ≠ FREE) := by
+  intro g h1 m1 h2 m2 x r1
+  have n := (noShareMini_reachable v4 ops hb).ns
+  exact ⟨fun r2 => n.disjoint m1 m2 r1 r2, n.reach_used m1 r1⟩
+
 /-- the hypotheses are met by a history that creates three streams (regular, regular, mini), frees
 one and reuses its sectors: heads are the directory (1), the mini stream (10), the MiniFAT (11) and
 stream 2 (12) -/
@@ -175,6 +197,9 @@ def exOps : List GOp :=
   [.create 1, .resize 1 5000, .create 2, .resize 2 9000, .free 1, .create 3, .resize 3 100]
 
 example : (grun { p := Phys.create false, L := fun _ => 0 } exOps).p.fat.size ≤ MAXREG + 1 := by decide
+example : MiniBounded { p := Phys.create false, L := fun _ => 0 } exOps := miniBounded_of_B _ _ (by decide)
+example : mregs (grun { p := Phys.create false, L := fun _ => 0 } exOps).p.starts
+    (grun { p := Phys.create false, L := fun _ => 0 } exOps).L = [0] := by decide
 example : heads (grun { p := Phys.create false, L := fun _ => 0 } exOps).p
     (grun { p := Phys.create false, L := fun _ => 0 } exOps).L = [1, 11, 10, 12] := by decide
 
